@@ -10,7 +10,7 @@ use std::task::{Context, Poll};
 use tokio::io::{AsyncRead, AsyncWrite, ReadBuf};
 
 /// Number of payload shapes `make_err` knows.
-pub const ERR_SHAPES: u8 = 6;
+pub const ERR_SHAPES: u8 = 8;
 
 #[derive(Debug)]
 struct ChainedCause(io::Error);
@@ -68,6 +68,10 @@ pub fn make_err(kind: io::ErrorKind, shape: u8) -> io::Error {
                 io::Error::new(kind, "")
             }
         }
+        // 6, 7: a layered transport (a tunnel or bridge that itself speaks MQTT) reports its failure with one of the
+        // codec's own error values as payload; it is still a transport failure of kind `kind`
+        6 => io::Error::new(kind, if kind == K::InvalidData { mqtt_proto::Error::ZeroPid } else { mqtt_proto::Error::InvalidHeader }),
+        7 => io::Error::new(kind, mqtt_proto::v5::ErrorV5::Common(mqtt_proto::Error::InvalidRemainingLength)),
         _ => io::Error::new(kind, "injected"),
     };
     debug_assert_eq!(e.kind(), kind);
@@ -130,6 +134,14 @@ pub struct ScriptedReader<'a> {
     /// the end of the stream is reported once (an empty read); a read issued after that fails with this kind (a closed
     /// connection object answers NotConnected; nothing is promised about reads after EOF)
     pub after_eof: Option<io::ErrorKind>,
+    /// every read that delivers bytes takes this long inside `poll_read` (a transport that decrypts, decompresses or
+    /// copies from a slow device before it answers); taken from `SLOW_READ_US` when the reader is made
+    pub delay_us: u32,
+}
+
+thread_local! {
+    /// microseconds every delivering read of the ScriptedReaders made on this thread spends inside `poll_read` (0 = none)
+    pub static SLOW_READ_US: Cell<u32> = const { Cell::new(0) };
 }
 
 impl<'a> ScriptedReader<'a> {
@@ -154,6 +166,7 @@ impl<'a> ScriptedReader<'a> {
             fail_once_at: None,
             ends: Rc::new(Cell::new(0)),
             after_eof: None,
+            delay_us: SLOW_READ_US.with(|c| c.get()),
         }
     }
     pub fn with_fault(mut self, pos: usize, kind: io::ErrorKind) -> Self {
@@ -243,6 +256,9 @@ impl<'a> AsyncRead for ScriptedReader<'a> {
             if fp > me.pos {
                 n = n.min(fp - me.pos);
             }
+        }
+        if me.delay_us > 0 && n > 0 {
+            std::thread::sleep(std::time::Duration::from_micros(me.delay_us as u64));
         }
         if me.fill_style == 0 {
             buf.put_slice(&me.data[me.pos..me.pos + n]);
